@@ -190,3 +190,12 @@ package geojson
 //@   ensures [polygon] err == nil && geom.Type == "Polygon" ==> typeof(g) == geom.Polygon && jXYss(geom.Coordinates, g.(geom.Polygon))
 //@   ensures [multipolygon] err == nil && geom.Type == "MultiPolygon" ==> typeof(g) == geom.MultiPolygon && jXYsss(geom.Coordinates, g.(geom.MultiPolygon))
 //@   modifies nothing
+
+// Encode: the JSON text of ToGeoJSON(g), or an error — never "success" without text (json.Marshal is
+// where non-finite coordinates are detected, so its error must not be dropped).
+//@ func Encode
+//@   prop C06
+//@   mode fp
+//@   ensures [text_or_error] (result1 == nil && len(result0) > 0) || (result1 != nil && len(result0) == 0)
+//@   ensures [unsupported_is_an_error] typeof(g) != geom.Point && typeof(g) != geom.MultiPoint && typeof(g) != geom.LineString && typeof(g) != geom.MultiLineString && typeof(g) != geom.Polygon && typeof(g) != geom.MultiPolygon ==> result1 != nil
+//@   modifies nothing
